@@ -670,6 +670,27 @@ func (e *Env) evalCall(x *ast.CallExpr) TV {
 				e.fail(x, "fresh() needs an old state")
 			}
 			return boolTV(le(e.vc.allocOf(e.old), r))
+		case "unchangedExcept":
+			// unchangedExcept(s, lo, hi): the backing array of s is unchanged since old() outside s[lo:hi]
+			a := e.eval(x.Args[0])
+			sl, ok := under(a.T).(*types.Slice)
+			if !ok || e.old == nil {
+				e.fail(x, "unchangedExcept needs a slice and an old state")
+			}
+			sv := a.V.(*SliceV)
+			lo := e.eval(x.Args[1]).term()
+			hi := e.eval(x.Args[2]).term()
+			i := e.vc.freshName("q_i")
+			var cs []string
+			for _, l := range leaves(sl.Elem()) {
+				name := "E|" + canon(sl.Elem()) + "|" + l.Path
+				sort := e.vc.heapSortFor(name, l.Sort)
+				hn := e.vc.heap(e.st, name, sort)
+				ho := e.vc.heap(e.old, name, sort)
+				cs = append(cs, eq(sel2(hn, sv.Arr, i), sel2(ho, sv.Arr, i)))
+			}
+			inside := and(le(plus(sv.Off, lo), i), lt(i, plus(sv.Off, hi)))
+			return boolTV(forall([][2]string{{i, "Int"}}, implies(not(inside), and(cs...))))
 		case "sameSlice":
 			a := e.eval(x.Args[0]).V.(*SliceV)
 			b := e.eval(x.Args[1]).V.(*SliceV)
